@@ -36,7 +36,7 @@ SINGLE = ["map", "flat_map", "retry", "poll", "throttle", "timeout", "cos"]
 MODES = ["value", "exc", "inner_cancel", "outer_cancel", "exc_then_inner_cancel", "refused_cancel_then_inner_cancel"]
 
 
-def layer_specs(layers):
+def layer_specs(layers, tmo=500.0):
     out = []
     for k, t in enumerate(layers):
         L = {"t": t, "k": k}
@@ -47,7 +47,7 @@ def layer_specs(layers):
         if t == "poll":
             L.update(interval=5.0)
         if t == "timeout":
-            L.update(timeout=500.0)
+            L.update(timeout=tmo)
         if t == "map":
             L.update(fn="tag", error_fn=None)
         out.append(L)
@@ -81,6 +81,11 @@ def cases(tier, seed):
         for trig in ("submit", "complete", "fail"):
             out.append({"name": "loop.wake-instr/%s/%s" % (">".join(layers), trig), "kind": "wake", "layers": layers,
                         "trigger": trig, "cap": None, "gran": "instr"})
+    for layers in ([["timeout"], ["map", "timeout"], ["timeout", "map"]] + ([["timeout", "timeout"], ["throttle", "timeout"]] if tier == "thorough" else [])):
+        for trig in ("submit", "complete", "cancel"):
+            for gran in (None, "instr"):
+                out.append({"name": "loop.expire%s/%s/%s" % ("-instr" if gran else "", ">".join(layers), trig), "kind": "expire",
+                            "layers": layers, "trigger": trig, "cap": None, "gran": gran})
     for layers in ([["retry"], ["poll"], ["throttle"], ["timeout"], ["map"], ["retry", "map"], ["map", "retry"], ["throttle", "retry"]]
                    + ([list(p) for p in itertools.product(SINGLE, SINGLE)] if tier == "thorough" else [])):
         for a, b in (("complete", "complete"), ("complete", "fail"), ("fail", "complete"), ("fail", "fail"), ("complete", "inner_cancel")):
@@ -120,10 +125,10 @@ class World(object):
     """A stack over a ManualExecutor with n submissions; knows what the harness
     did to each submission's delegate items."""
 
-    def __init__(self, ctx, layers, n=2):
+    def __init__(self, ctx, layers, n=2, tmo=500.0):
         self.ctx = ctx
         self.layers = layers
-        self.spec = {"base": "me", "layers": layer_specs(layers)}
+        self.spec = {"base": "me", "layers": layer_specs(layers, tmo)}
         self.b = stacks.build(ctx, self.spec)
         self.me = self.b.base
         self.top = self.b.top
@@ -319,6 +324,46 @@ class WakeScenario(object):
         if info.get("hit"):
             res.sample({"stack": self.layers, "trigger": self.trigger, "second_action": self.second,
                         "worker_paused_at": info.get("site")}, limit=1)
+
+
+class ExpireScenario(WakeScenario):
+    """Timeout stacks whose delegate work never ends: the worker reacts to ``trigger`` while a second producer acts;
+    afterwards nothing is completed and the clock passes every deadline: each future still pending must have been
+    ended by its timeout (the configured time bound of the statement)."""
+    TMO = 2.0
+
+    def setup(self):
+        ctx = Ctx()
+        ctx.w = World(ctx, self.layers, n=2, tmo=self.TMO)
+        instr.advance(D)
+        return ctx
+
+    def finish(self, ctx):
+        ctx.t_last = instr.vnow()
+        for _ in range(6):
+            instr.advance(self.TMO / 4)
+        instr.advance(D)
+
+    def oracle(self, ctx, res, info):
+        w = ctx.w
+        site = info.get("site") if info else None
+        label = "expire/%s/%s|%s" % (">".join(self.layers), self.trigger, self.second)
+        lost = [(i, f) for i, f in enumerate(w.futs) if not f.done()]
+        if lost and any(not w.me.fut(k).done() and getattr(w.me.fut(k), "running", lambda: False)() for k in w.pending_items()):
+            res.inconclusive.append("%s: a delegate future is running, its cancel is refused" % label)
+            return
+        if lost:
+            instr.advance(120.0)
+        for i, f in lost[:1]:
+            late = f.done()
+            res.violation("%s/deadline-passed/%s/%s" % ("late" if late else "lost", type(f).__name__, ">".join(self.layers)),
+                          "future %d of stack %s (timeout %.1fs, submitted by t=%.3f) is still pending at t=%.3f: its deadline passed and it was "
+                          "not cancelled%s; placement=%s" % (i, ">".join(self.layers), self.TMO, ctx.t_last, ctx.t_last + 1.5 * self.TMO,
+                                                           "; it ended only when an unrelated timer fired" if late else "; never ends", site),
+                          stack=self.layers)
+        res.count("futures_judged", len(w.futs))
+        res.count("futures_ended_by_deadline", len([f for f in w.futs if f.cancelled()]))
+        res.key(label, site or "-")
 
 
 class TimerScenario(WakeScenario):
@@ -575,6 +620,15 @@ def run_wake(case, res):
             return
 
 
+def run_expire(case, res):
+    rng = random.Random("c03/%s/%s" % (case["seed"], case["name"]))
+    for second in ["submit", "complete", "cancel"]:
+        Sweep(ExpireScenario(case["layers"], case["trigger"], second), res, "vt", case["name"],
+              gran=case.get("gran")).run(case["cap"], rng, per_site=2)
+        if harness.need_recycle():
+            return
+
+
 def run_timer(case, res):
     rng = random.Random("c03/%s/%s" % (case["seed"], case["name"]))
     for prod in ["submit", "complete", "fail", "cancel"]:
@@ -810,5 +864,7 @@ def run_case(case, res):
         run_wake(case, res)
     elif k == "timer":
         run_timer(case, res)
+    elif k == "expire":
+        run_expire(case, res)
     else:
         run_comb(case, res)
